@@ -157,6 +157,14 @@ UpdateClient(c, d, k, s) ==
   /\ UpdateEff(c, d, k, s)
   /\ last' = [act |-> "UpdateClient", res |-> Res(UpdateOK(c, d, k, s)), chain |-> c, counter |-> d, height |-> k, signer |-> s]
 
+(* Governance replaces the client of d on chain c by a TSS client and then again by a Tendermint client at d's   *)
+(* last committed header (two ToggleClient proposals, ToggleClient wipes the client's own store in between):     *)
+(* nothing but the client changes - in particular no receipt, acknowledgement, commitment or sequence.          *)
+RetoggleEff(c, d) ==
+  /\ clients' = [clients EXCEPT ![c][d] = [latest |-> h[d], cons |-> {h[d]}]]
+  /\ UNCHANGED <<h, seq, cseq, commits, receipts, acks, out, bind, ubal, wbal, rbal, held, status, marks, snaps, sent>>
+Retoggle(c, d) == RetoggleEff(c, d) /\ last' = [act |-> "Retoggle", res |-> "ok", chain |-> c, counter |-> d]
+
 (* the packet a relayer message names after alteration alt of sent packet p *)
 Decoded(p, alt) ==
   CASE alt = "amt"    -> [p EXCEPT !.amt = @ + 1]
@@ -255,6 +263,7 @@ Next ==
         c # d /\ <<c, k>> \in SendFrom /\ (d \in Chains => seq[c][d] <= MaxSeq) /\ Send(c, d, k, a, cl, f)
   \/ \E c \in Chains : Commit(c)
   \/ \E c \in Chains : \E d \in Others(c), k \in 0..MaxH, s \in Signers : UpdateClient(c, d, k, s)
+  \/ \E c \in Chains : \E d \in Others(c) : Retoggle(c, d)
   \/ \E p \in sent, alt \in Alts, k \in 0..MaxH, pf \in Proofs, s \in Signers : Recv(p.dst, p, alt, k, pf, s)
   \/ \E p \in sent, alt \in Alts, aalt \in AckAlts, k \in 0..MaxH, pf \in Proofs, s \in Signers :
         Ack(p.src, p, AckCode(WrittenCode(p), aalt), alt, aalt, k, pf, s)
